@@ -30,7 +30,7 @@ def run(ctx):
     ctx.assumptions += ["every received line is kept alive until the end of the run, so the allocator cannot legitimately reuse an address",
                         "zero-length argument lists are exempt from the identity comparison (they may share the runtime's zero-size base)"]
     cov = {"evaluations": s["invocations"], "distinct_nontrivial": s["lines"],
-           "rule": "one evaluation = one handler invocation (3 sets x %d handlers per line); distinct = dispatched lines (0..15 arguments; no tag section, empty tag sections '@ ' '@; ', "
+           "rule": "one evaluation = one handler invocation (per verb 1/1/1, %d per set, or 0/1/2 handlers in the internal/foreground/background sets); distinct = dispatched lines (0..15 arguments; no tag section, empty tag sections '@ ' '@; ', "
                    "key-only, escaped and multiple tags)" % nh,
            "lines": s["lines"]}
     return common.finish(ctx, "model_checking", cov)
